@@ -11,6 +11,8 @@ DRIVERS = ['drv_world']
 TRUSTED = F.WORLD_TRUSTED
 F.PARAM_SETS['switchy'] = dict(nsteps=45, nfits=2, nuni=3, disjoint=0.35, switch_weight=8)
 F.PARAM_SETS['switchy-proj'] = dict(nsteps=45, nfits=3, nuni=2, disjoint=0.2, switch_weight=7, proj_bias=True, prefill=True, neff=12)
+F.PARAM_SETS['switchy-boost'] = dict(nsteps=40, nfits=2, nuni=2, fleet=True, prefill=True, fleet_bias=True, switch_weight=8,
+                                     fleet_weight=0, level_weight=5, disjoint=0.1)   # running boosters, no shared fleets
 F.PARAM_SETS['switchy-fleet'] = dict(nsteps=40, nfits=2, nuni=2, fleet=True, switch_weight=5, disjoint=0.1)
 RULE = ('pairs/triples of generated sources with overlapping and source-specific type ids (20-35% of the types exist '
         'in one source only), histories with frequent source switches (incl. None) interleaved with all other ops; '
@@ -46,13 +48,19 @@ def correspondence(ctx):
         rep.dist['switches'] += _count_switches(h)
         if _count_switches(h) >= 2:
             rep.dist['histories_with_2plus_switches'] += 1
-    F.histories(ctx, rep, ['switchy', 'switchy-proj', 'switchy-fleet', 'basic'], ctx.n(40, 800), 'corr', on_history=on_history)
+    F.histories(ctx, rep, ['switchy', 'switchy-proj', 'switchy-fleet', 'switchy-boost', 'basic'], ctx.n(32, 640), 'corr',
+                on_history=on_history)
 
 
 def _switch_back(ctx, rep, n):
-    p = F.PARAM_SETS['switchy']
-    base = ctx.sub_rnd('back').randrange(10 ** 9)
     for k in range(n):
+        _switch_back_one(ctx, rep, k, 'switchy-boost' if k % 3 == 2 else 'switchy')
+
+
+def _switch_back_one(ctx, rep, k, pname):
+    p = F.PARAM_SETS[pname]
+    base = ctx.sub_rnd('back', pname).randrange(10 ** 9)
+    for k in [k]:
         seed = base + k
         rnd, w = WC.make_world(seed, p)
         gen = W.OpGen(rnd, p)
@@ -66,7 +74,7 @@ def _switch_back(ctx, rep, n):
             for op in gen._untarget(w, {id(i) for i in w.all_items()}):
                 w.apply(op)
                 done.append(op)
-            if gen._buff_running(w):
+            if gen._buff_running(w) and gen._fleet_shared(w):
                 continue
             before = w.observe()
             home = w.src
@@ -82,18 +90,72 @@ def _switch_back(ctx, rep, n):
             continue
         except Exception as e:
             rep.violate('source switching raised %s: %s' % (type(e).__name__, str(e)[:80]),
-                        dict(F.case_of(seed, 'switchy', done), oracle='switch-back'))
+                        dict(F.case_of(seed, pname, done), oracle='switch-back'))
             continue
         rep.case(sig=('back', seed), kind='switch-back')
         d1 = F.equal_obs(mid[0], mid2[0])
         if d1 or mid[1] != mid2[1]:
             rep.violate('after switching the source the world differs from a rebuild under that source: %r' % (d1[:2],),
-                        dict(F.case_of(seed, 'switchy', done + [('source', away)]), oracle='mirror'))
+                        dict(F.case_of(seed, pname, done + [('source', away)]), oracle='mirror'))
         d2 = F.equal_obs(before[0], after[0])
         if d2 or before[1] != after[1]:
             rep.violate('switching the source away and back does not restore values: %r' % (d2[:2],),
-                        dict(F.case_of(seed, 'switchy', done + [('source', away), ('source', home)]),
+                        dict(F.case_of(seed, pname, done + [('source', away), ('source', home)]),
                              oracle='switch-back'))
+
+
+def _away_work(ctx, rep, n):
+    """State changes made while the items are unloaded (source None / a source lacking their types) count exactly as
+    in a world built from scratch: attribute values, running effects, statistics and the validation verdict are
+    compared with a rebuild while away and after coming home."""
+    p = F.PARAM_SETS['switchy']
+    base = ctx.sub_rnd('away').randrange(10 ** 9)
+    for k in range(n):
+        seed = base + k
+        rnd, w = WC.make_world(seed, p)
+        gen = W.OpGen(rnd, p)
+        done = []
+        try:
+            while len(done) < 25:
+                for op in gen.next(w):
+                    w.apply(op)
+                    done.append(op)
+            for op in gen._untarget(w, {id(i) for i in w.all_items()}):
+                w.apply(op)
+                done.append(op)
+            if gen._buff_running(w) and gen._fleet_shared(w):
+                continue
+            home = w.src
+            away = rnd.choice([i for i in list(range(len(w.unis))) + [None] if i != home])
+            w.apply(('source', away))
+            done.append(('source', away))
+            stateful = [i for i in w.all_items() if hasattr(type(i), 'state') and type(i).state.fset is not None]
+            for it in rnd.sample(stateful, min(len(stateful), rnd.randint(1, 4))):
+                op = ('state', it._vid, rnd.choice([1, 1, 2, 3]))
+                w.apply(op)
+                done.append(op)
+            stages = []
+            for stage in ('away', 'home'):
+                if stage == 'home':
+                    w.apply(('source', home))
+                    done.append(('source', home))
+                n2, _ = W.rebuild(w)
+                stages.append((stage, w.observe(), W.observe_stats(w), n2.observe(), W.observe_stats(n2), list(done)))
+        except ZeroDivisionError:
+            continue
+        except Exception as e:
+            rep.violate('source switching raised %s: %s' % (type(e).__name__, str(e)[:80]),
+                        dict(F.case_of(seed, 'switchy', done), oracle='away-work'))
+            continue
+        rep.case(sig=('away', seed), kind='away-work')
+        for stage, got, gst, want, wst, ops in stages:
+            d = F.equal_obs(got[0], want[0])
+            ds = [key for key in gst if not W.flat_equal(gst[key], wst.get(key))]
+            if d or got[1] != want[1] or ds:
+                rep.violate('after state changes made while unloaded (%s) the world differs from a rebuild: %r %r' % (
+                    stage, d[:2], [(key, gst[key], wst.get(key)) for key in ds[:2]]),
+                    dict(F.case_of(seed, 'switchy', ops), oracle='mirror'))
+                break
 
 
 def _move_fit(ctx, rep, n, pname='switchy'):
@@ -145,6 +207,7 @@ def oracle(ctx):
     _switch_back(ctx, ctx.report, ctx.n(40, 800))
     _move_fit(ctx, ctx.report, ctx.n(20, 400))
     _move_fit(ctx, ctx.report, ctx.n(40, 600), 'switchy-fleet')
+    _away_work(ctx, ctx.report, ctx.n(30, 500))
 
 
 def search(ctx, broken):
